@@ -33,8 +33,22 @@ func (it *Interp) SymbolicDecimal(name string, n int) DecV {
 	d := DecV{LeadNZ: true}
 	for i := 0; i < n; i++ {
 		d.D = append(d.D, it.SrcBV(fmt.Sprintf("%s.d%d", name, i), 4))
+		it.assumeDecimal(d.D[i])
 	}
 	return d
+}
+
+// assumeDecimal adds "this nibble is 0..9" to the premise under which branches are decided.
+func (it *Interp) assumeDecimal(d BV) {
+	it.AndPremise(it.T.Not(it.T.And(d.B[3], it.T.Or(d.B[2], d.B[1]))))
+}
+
+func (it *Interp) AndPremise(n *Node) {
+	if it.Premise == nil {
+		it.Premise = n
+	} else {
+		it.Premise = it.T.And(it.Premise, n)
+	}
 }
 
 // DigitString: a string of n decimal digit characters; digit i has sources name.d<i>.
@@ -42,6 +56,7 @@ func (it *Interp) DigitString(name string, n int) StrV {
 	s := StrV{Sym: true}
 	for i := 0; i < n; i++ {
 		d := it.SrcBV(fmt.Sprintf("%s.d%d", name, i), 4)
+		it.assumeDecimal(d)
 		c := it.constBV(0x30, 8)
 		copy(c.B[0:4], d.B)
 		s.Chars = append(s.Chars, c)
@@ -186,13 +201,22 @@ func (it *Interp) textModel(st *state, name string, c *ssa.CallCommon, args []Va
 		if !ok {
 			return nil, false
 		}
-		if s.Sym && len(s.Chars) == 1 {
-			if nb, ok := it.nibbleOfChar(s.Chars[0]); ok && s.Chars[0].Hex == nil {
-				r := it.constBV(0, 64)
-				copy(r.B[0:4], nb)
-				r.Signed = true
+		if s.Sym && len(s.Chars) == 1 && s.Chars[0].Hex == nil && !s.Chars[0].HasTop() {
+			// one character c: a decimal digit iff its high nibble is 3 and its low nibble is at most 9;
+			// the value is the low nibble then, and (0, error) otherwise
+			c := s.Chars[0]
+			hi3 := it.T.And(it.T.And(it.T.Not(c.B[7]), it.T.Not(c.B[6])), it.T.And(c.B[5], c.B[4]))
+			le9 := it.T.Not(it.T.And(c.B[3], it.T.Or(c.B[2], c.B[1])))
+			isd := it.T.And(hi3, le9)
+			r := it.constBV(0, 64)
+			for i := 0; i < 4; i++ {
+				r.B[i] = it.T.And(isd, c.B[i])
+			}
+			r.Signed = true
+			if isd == it.T.one {
 				return TupleV{r, NilV{}}, true
 			}
+			return TupleV{r, ErrV{isd}}, true
 		}
 		if s.Known && len(s.S) == 1 && s.S[0] >= '0' && s.S[0] <= '9' {
 			return TupleV{it.constBV(uint64(s.S[0]-'0'), 64).signed(), NilV{}}, true
@@ -271,4 +295,16 @@ func (it *Interp) compareHexChar(c BV, k uint64) (*Node, bool) {
 		eq = it.T.And(eq, bit)
 	}
 	return eq, true
+}
+
+
+// EquivUnderPremise: x and y agree on every assignment of the sources that satisfies the premise.
+func (it *Interp) EquivUnderPremise(x, y *Node) bool {
+	if x == y {
+		return true
+	}
+	if it.Premise == nil {
+		return it.T.Equiv(x, y)
+	}
+	return it.T.Equiv(it.T.And(it.Premise, it.T.Xor(x, y)), it.T.zero)
 }
